@@ -67,8 +67,9 @@ PROPS = {
     },
     'C10': {
         'lean': 'C10',
-        'corr': [_f('comp_xfer', 'exec_corr')],
-        'oracles': [_x('C10'), _f('comp_defer', 'manager_oracle_c10'), _f('comp_sema', 'tsem_blocking_oracle')],
+        'corr': [_f('comp_xfer', 'exec_corr'), _f('comp_sema', 'blocking_corr')],
+        'oracles': [_x('C10'), _f('comp_defer', 'manager_oracle_c10'), _f('comp_sema', 'tsem_blocking_oracle'),
+                    _f('comp_sema', 'blocking_oracle_c10')],
         'modelled': ['futures.BoundedExecutor (stage model)', 'wiring of TransferManager.__init__ (translator)'],
     },
     'C11': {
